@@ -66,6 +66,10 @@ void generate(sim::Rng &r, uint64_t seed, const std::string &tier, sim::Plan &p)
     if (r.chance(300)) { sim::Op op; op.kind = "pwr"; op.a = {0, pick_size(), 0}; p.ops.push_back(op); }
   }
   bool closed = false;
+  // TcpClient with automatic reconnection: the peer hangs up in the middle and accepts the client's next connection
+  bool reconn = mode == 2 && r.chance(300);
+  p.cfg["reconn"] = reconn;
+  bool reconnected = false;
   for (int i = 0; i < n; ++i) {
     sim::Op op;
     long dt = r.chance(500) ? 0 : r.range(1, 10);
@@ -78,6 +82,7 @@ void generate(sim::Rng &r, uint64_t seed, const std::string &tier, sim::Plan &p)
     else if (x < 88) { op.kind = "policy"; op.a = {dt, r.pick((const long[]){0, 0, 1, 1, 2, 10, 2000}), (long)r.below(3), r.range(1, 3000), r.chance(350) ? 1 : 0}; }
     else if (x < 90) { op.kind = "shrink"; op.a = {dt, (long)r.below(3), 0}; }
     else if (x < 93) { op.kind = "advance"; op.a = {dt, r.range(1, 200), 0}; }
+    else if (reconn && !reconnected && !closed && x >= 90 && x < 97 && i >= 2) { op.kind = "preconn"; op.a = {dt, pick_size(), 0}; reconnected = true; }
     else if (x < 95 && !closed && i > n / 2) { op.kind = "pclose"; op.a = {dt, 0, 0}; closed = true; }
     else if (x < 97 && !closed && i > n / 2) { op.kind = "pwrclose"; op.a = {dt, pick_size(), 0}; closed = true; }   // last bytes and close pending in the same wake-up
     else if (x < 99 && !closed && i > n / 2) { op.kind = "disconnect"; op.a = {dt, 0, 0}; closed = true; }
@@ -115,6 +120,8 @@ struct World {
   long send_completes = 0;
   long chain_n = 0, chain_left = 0;
   bool shrink_in_cb = false;
+  long cb_version = 0;          // the receive callback installed last
+  bool awaiting_reconnect = false; long reconnects = 0;
   bool finished = false;
   std::string path;
 };
@@ -126,6 +133,16 @@ long peer_unread() {
   int n = 0;
   if (W.pfd < 0 || ioctl(W.pfd, FIONREAD, &n) != 0) return 0;
   return n;
+}
+
+void on_receive(Buffer &buff);
+// every installation of the receive callback gets a version: data must go to the one installed last
+std::function<void(Buffer &)> make_receive_cb() {
+  long v = ++W.cb_version;
+  return [v](Buffer &b) {
+    if (v != W.cb_version) { sim::violation("C06/stale-receive-callback", sim::fmt("received bytes were presented to receive callback #%ld although #%ld had been installed since", v, W.cb_version)); return; }
+    on_receive(b);
+  };
 }
 
 void on_receive(Buffer &buff) {
@@ -230,6 +247,20 @@ void connect_peer_mode1() {
   W.pfd = fd;
 }
 
+// the client connects again right after the hang-up; the peer accepts once the close has been reported: a new connection, new streams
+void maybe_accept_reconnect() {
+  if (!W.awaiting_reconnect || W.closed_reports < 1 || W.listen_fd < 0) return;
+  int fd = sim::raw::accept(W.listen_fd, nullptr, nullptr);
+  if (fd < 0) return;
+  set_nonblock(fd);
+  if (W.closed_reports != 1) sim::violation("C06/close-reported-twice", sim::fmt("the peer closed; the close was reported %ld times", W.closed_reports));
+  W.pfd = fd; W.peer_closed = false; W.awaiting_reconnect = false; ++W.reconnects;
+  W.tx_sent = W.tx_peer_read = 0; W.rx_written = W.rx_consumed = W.rx_presented = 0; W.closed_reports = 0; W.max_threshold = W.threshold;
+  W.chain_left = 0;
+  sim::trace("peer accepted the reconnection");
+  sim::probe("reconnections");
+}
+
 void apply(const sim::Op &op) {
   const std::string &k = op.kind;
   long n = op.arg(1);
@@ -238,8 +269,8 @@ void apply(const sim::Op &op) {
   else if (k == "send") { if (!W.local_disconnected && !(W.mode == 0 && !W.bfd)) tbox_send(std::max(1L, std::min(4000000L, n))); }
   else if (k == "policy") {
     W.threshold = std::max(0L, n); W.consume_mode = op.arg(2) % 3; W.consume_k = std::max(1L, op.arg(3)); W.shrink_in_cb = (op.arg(4) & 1) != 0;
-    if (W.mode == 0) { if (W.bfd) W.bfd->setReceiveCallback(on_receive, (size_t)W.threshold); }
-    else if (W.mode == 2) W.client->setReceiveCallback(on_receive, (size_t)W.threshold);
+    if (W.mode == 0) { if (W.bfd) W.bfd->setReceiveCallback(make_receive_cb(), (size_t)W.threshold); }
+    else if (W.mode == 2) W.client->setReceiveCallback(make_receive_cb(), (size_t)W.threshold);
     // TcpServer applies its threshold to new connections only: keep the policy's consume part, not the threshold
     if (W.mode == 1) W.threshold = 0;
     W.max_threshold = std::max(W.max_threshold, W.threshold);
@@ -280,7 +311,7 @@ void execute(const sim::Plan &plan) {
     W.pfd = sv[1];
     W.bfd = new BufferedFd(W.loop);
     W.bfd->initialize(util::Fd(sv[0]));
-    W.bfd->setReceiveCallback(on_receive, 0);
+    W.bfd->setReceiveCallback(make_receive_cb(), 0);
     W.bfd->setSendCompleteCallback(on_send_complete);
     W.bfd->setReadZeroCallback([] {
       on_closed("read-zero");
@@ -305,10 +336,10 @@ void execute(const sim::Plan &plan) {
     W.listen_fd = lfd;
     W.client = new TcpClient(W.loop);
     W.client->initialize(SockAddr::FromString(W.path));
-    W.client->setAutoReconnect(false);
+    W.client->setAutoReconnect(plan.get("reconn") != 0);
     W.client->setConnectedCallback([] { W.connected = true; sim::trace("client: connected"); });
     W.client->setDisconnectedCallback([] { W.connected = false; on_closed("client-disconnected"); });
-    W.client->setReceiveCallback(on_receive, 0);
+    W.client->setReceiveCallback(make_receive_cb(), 0);
     W.client->setSendCompleteCallback(on_send_complete);
     W.client->start();
   }
@@ -326,12 +357,18 @@ void execute(const sim::Plan &plan) {
     const sim::Op *op = &plan.ops[i];
     t += std::max(0L, std::min(1000L, op->arg(0))) * 1000000;
     tl.at(t, [op] {
+      sim::fault_scope(0, 0);
+      maybe_accept_reconnect();
       sim::fault_scope(op->fseed, op->fmask);
       const std::string &k = op->kind;
       if (k == "prd") peer_read(std::max(1L, op->arg(1)));
       else if (k == "pwr") peer_write(std::max(1L, std::min(4000000L, op->arg(1))));
       else if (k == "advance") sim::advance_ms(std::max(1L, std::min(1000L, op->arg(1))));
       else if (k == "pclose") { if (W.pfd >= 0 && !W.peer_closed) { close(W.pfd); W.peer_closed = true; sim::trace("peer close"); } }
+      else if (k == "preconn") {
+        // last bytes, hang-up; the client connects again at once and the peer accepts that connection a little later
+        if (W.mode == 2 && W.pfd >= 0 && !W.peer_closed && !W.awaiting_reconnect) { peer_write(std::max(1L, std::min(4000000L, op->arg(1)))); close(W.pfd); W.peer_closed = true; W.awaiting_reconnect = true; sim::trace("peer write+close, will accept the reconnection"); }
+      }
       else if (k == "pwrclose") { if (W.pfd >= 0 && !W.peer_closed) { peer_write(std::max(1L, std::min(4000000L, op->arg(1)))); close(W.pfd); W.peer_closed = true; sim::trace("peer write+close"); } }
       else W.loop->runInLoop([op] { apply(*op); }, "c06.op");
     }, (int)i);
@@ -346,7 +383,7 @@ void execute(const sim::Plan &plan) {
   long drain_steps = 400 + std::min(60000L, planned / 1024);
   for (long k = 0; k < drain_steps; ++k) {
     t += 1000000;
-    tl.at(t, [] { sim::fault_scope(0, 0); peer_read(1 << 30); });
+    tl.at(t, [] { sim::fault_scope(0, 0); maybe_accept_reconnect(); peer_read(1 << 30); });
   }
   t += 1000000;
   tl.at(t, [] { W.loop->runInLoop([] { W.finished = true; W.loop->exitLoop(); }, "c06.exit"); });
